@@ -4,6 +4,14 @@ import common, diffrun, gen, stdflow
 from common import hx, rnd_bytes
 
 
+# storage descriptors offered to save_seed / load_seed
+SIZES = [32, 32, 33, 64, 4096]
+SMALL_SIZES = [31, 31, 0, 16]
+PAGES = [1, 1, 4, 32, 64, 256]
+ERASES = [0, 0, 1, 32, 4096]
+ADDRS = [0, 0, 256, 4096, 61440]
+
+
 def session(rng, tier, stats):
     ops = []
     nsys = [0]
@@ -32,23 +40,31 @@ def session(rng, tier, stats):
         elif k == "reseed":
             body.append("RN RESEED"); need += 1; counter = 0
         elif k in ("save", "load"):
-            mode = rng.choice(["ok", "ok", "short", "fail", "small", "null"])
+            mode = rng.choice(["ok", "ok", "short", "long", "fail", "small", "null"])
             stats["storage"][k + "-" + mode] += 1
             if mode == "null":
                 body.append("RN %s NULL" % k.upper())
             else:
-                size = 31 if mode == "small" else rng.choice([32, 64, 4096])
-                rr = 32 if mode == "ok" else (rng.choice([0, 5, 31]) if mode == "short" else (-1 if mode == "fail" else 32))
-                wr = 32 if mode == "ok" else (rng.choice([0, 31]) if mode == "short" else (-1 if mode == "fail" else 32))
-                if mode in ("short", "fail") and rng.random() < 0.5:
-                    # the two callbacks fail independently: a failed read followed by a good write (and the reverse)
+                # storage geometry (ascon_storage_t): region size around the 32-byte seed, page size (minimum writable unit), erase block size
+                # (0 = no erase needed -> the write callback must be called with erase = 0, otherwise with erase != 0), base address, partial writes
+                size = rng.choice(SMALL_SIZES) if mode == "small" else rng.choice(SIZES)
+                page, erase, addr, partial = rng.choice(PAGES), rng.choice(ERASES), rng.choice(ADDRS), rng.choice([0, 1])
+                geo = stats.setdefault("geometry", collections.Counter())
+                for key in ("size=%d" % size, "page=%d" % page, "erase_size=%d" % erase, "address=%d" % addr, "partial_writes=%d" % partial):
+                    geo[key] += 1
+                bad = {"short": [0, 5, 31], "long": [33, 64], "fail": [-1]}
+                rr = wr = 32
+                if mode in bad:
+                    rr, wr = rng.choice(bad[mode]), rng.choice(bad[mode])
                     if rng.random() < 0.5:
-                        wr = 32
-                    else:
-                        rr = 32
-                    stats["storage"][k + "-mixed"] += 1
-                data = rnd_bytes(rng, 32)
-                body.append("RN %s %d %d %s %d" % (k.upper(), size, rr, hx(data), wr))
+                        # the two callbacks fail independently: a failed read followed by a good write (and the reverse)
+                        if rng.random() < 0.5:
+                            wr = 32
+                        else:
+                            rr = 32
+                        stats["storage"][k + "-mixed"] += 1
+                data = rnd_bytes(rng, rng.choice([32, 32, 40]))
+                body.append("RN %s %d %d %s %d %d %d %d %d" % (k.upper(), size, rr, hx(data), wr, page, erase, addr, partial))
                 if mode not in ("small",):
                     if k == "save":
                         if counter >= 16384:
@@ -67,6 +83,31 @@ def session(rng, tier, stats):
     # SYSCLEAR must come first
     ops = ["TRNG SYSCLEAR"] + ops[1:]
     return ops + body
+
+
+def storage_sessions(rng, stats):
+    """Directed: every region size x erase-block size x partial-write flag of the lists above (page size and address cycling through
+    theirs), each with a save and a load on one generator, the read / write results cycling through good, short, long and failing ones.
+    The result line of SAVE / LOAD carries the calls the callbacks received (R:<offset>:<length>, W:<offset>:<length>:<erase>:<bytes>)."""
+    out = []
+    k = 0
+    results = [(32, 32), (32, 32), (31, 32), (32, 31), (33, 32), (32, 33), (-1, 32), (32, -1), (0, 0), (64, 64)]
+    for size in sorted(set(SIZES + SMALL_SIZES)):
+        for erase in sorted(set(ERASES)):
+            for partial in (0, 1):
+                page, addr = sorted(set(PAGES))[k % len(set(PAGES))], sorted(set(ADDRS))[k % len(set(ADDRS))]
+                (rr, wr), (rr2, wr2) = results[k % len(results)], results[(k + 3) % len(results)]
+                k += 1
+                geo = "%d %d %d %d" % (page, erase, addr, partial)
+                first, second = ("SAVE", "LOAD") if k % 2 else ("LOAD", "SAVE")
+                ops = ["TRNG SYSCLEAR"] + ["TRNG SYS %s %d" % (hx(rnd_bytes(rng, 32)), 1) for _ in range(4)]
+                ops += ["RN INIT", "RN %s %d %d %s %d %s" % (first, size, rr, hx(rnd_bytes(rng, 32)), wr, geo), "RN STATE",
+                        "RN %s %d %d %s %d %s" % (second, size, rr2, hx(rnd_bytes(rng, 32)), wr2, geo), "RN STATE", "RN CALLS", "RN FETCH 8", "RN FREE"]
+                out.append(ops)
+                g = stats.setdefault("geometry", collections.Counter())
+                for key in ("size=%d" % size, "page=%d" % page, "erase_size=%d" % erase, "address=%d" % addr, "partial_writes=%d" % partial):
+                    g[key] += 2
+    return out
 
 
 def c19_fill(n, seed, k):
@@ -211,6 +252,11 @@ def run(res, tier, seed, replay=None):
     else:
         for _ in range(60 if tier == "quick" else 600):
             corr.session(session(rng, tier, stats), "RN-session")
+        nst = 0
+        for ops in storage_sessions(rng, stats):
+            corr.session(ops, "RN-storage-session")
+            nst += 1
+        stats["storage"]["directed-geometry-sessions"] = nst
 
     def sig(line):
         t = line.split()
@@ -232,17 +278,26 @@ def run(res, tier, seed, replay=None):
         "evaluations": sum(p["sessions"] for p in per),
         "distinct_nontrivial": max([p["nontrivial"] for p in per] or [0]),
         "rule": "random histories of init/fetch/feed/reseed/save/load/one-shot with a scripted system source (healthy and failing answers, "
-                "all-zero / all-ones seeds) and scripted storage callbacks (full, short, failing, too small, NULL); after every operation the outputs, "
-                "status results, the counter, count/mode and the 40 state bytes and the number of system-source calls are compared with the model",
+                "all-zero / all-ones seeds) and scripted storage callbacks (full, short, long (33, 64), failing, region too small, NULL) over varied storage "
+                "descriptors (region size 0/16/31/32/33/64/4096, page size 1..256, erase-block size 0/1/32/4096, base address 0..61440, partial writes "
+                "on/off; every size x erase size x partial-write combination at least once per run); after every operation the outputs, status results, "
+                "the counter, count/mode and the 40 state bytes and the number of system-source calls are compared with the model; SAVE / LOAD result "
+                "lines carry every callback call in order with the arguments the callback received (read: offset, length; write: offset, length, erase "
+                "request, the bytes; whether the descriptor pointer was the caller's; whether the descriptor was modified) and must equal the model's "
+                "predicted call list",
         "samples": corr.lines[:12],
         "per_config": per,
         "input_distribution": {"ops": dict(stats["ops"]), "fetch_sizes": diffrun.histogram(stats["fetch"], (0, 8, 100, 16383, 16384, 20000)),
-                               "storage": dict(stats["storage"])},
+                               "storage": dict(stats["storage"]), "storage_geometry": dict(stats.get("geometry", {}))},
     })
     res.assumptions += ["'every byte influences all later output' is proved structurally (every entropy byte is absorbed into the sponge and followed by "
                         "the re-key before any output); the diffusion itself is a property of the permutation, only observed",
                         "the library's own TRNG back end is replaced at link time by the scripted source (harness/h_trng.cpp) for the main histories; a second set of "
                         "histories runs the real Linux back end under an LD_PRELOAD shim that makes chosen getrandom requests fail",
-                        "Model/Prngm.v mirrors the C (differential run incl. full internal state)"]
+                        "Model/Prngm.v mirrors the C (differential run incl. full internal state)",
+                        "storage: the library calls the callbacks with offsets relative to the region (always 0) and leaves the base address, page size and "
+                        "partial-write flag to the callbacks; the harness callbacks are scripted (they do not emulate a device: what a later read returns is "
+                        "an input of the next operation, not derived from an earlier write) - the round trip through a real device follows from the compared "
+                        "arguments: write(0, 32 bytes) and read(0, 32) address the same bytes"]
     res.cov["wall_total"] = round(time.time() - t0, 1)
     return "proof"
